@@ -89,8 +89,12 @@ func c15Scenario(s *sc) {
 		s.violate("interval-evaluated-in-the-wrong-zone", "%s: the interval %v (location %q) gates the present instant %s UTC, yet the alert was notified (host zone is UTC+12)", kind, ti.Times, ti.Loc, now.UTC().Format("15:04"))
 		return
 	}
-	st, mb, _ := mutedByOf(s, in, "timed", time.Now(), func(string, []string) bool { return true })
-	if wantMuted != (len(mb) > 0) || (wantMuted && strings.Join(mb, ",") != "ti") {
+	wantMB := ""
+	if wantMuted {
+		wantMB = "ti"
+	}
+	st, mb, _ := mutedByOf(s, in, "timed", time.Now().Add(slack), func(_ string, mb []string) bool { return strings.Join(mb, ",") == wantMB })
+	if strings.Join(mb, ",") != wantMB {
 		s.violate("muted-by-disagrees-with-gating", "%s: the flush was gated=%v but /alerts/groups reports mutedBy=%v state=%s", kind, wantMuted, mb, st)
 		return
 	}
